@@ -560,6 +560,9 @@ func (e emb) pt(p pt) orb.Point {
 }
 
 type input struct {
+	relID   int64 // id of the relation (default 1)
+	relZero bool  // the relation id really is 0
+	noAnnot bool  // way ids outside [0, 2^40): FeatureID packing (C10) does not apply, skip annotate
 	e       emb
 	spec    []gtPoly // nil = no spec
 	pieces  []piece
@@ -652,6 +655,63 @@ func cutScene(rng *rand.Rand, sc []gtPoly, cuts func(ring, n int) int) *input {
 	return in
 }
 
+// exoticIDs: n distinct ids drawn from {negative (editor placeholders), 0, small, around 2^40,
+// near MaxInt64 / MinInt64}; ids are opaque in the model.
+func exoticIDs(rng *rand.Rand, n int, safe bool) []int64 {
+	var pool []int64
+	for k := int64(0); k < int64(n)+2; k++ {
+		if safe { // ids a FeatureID can carry: [0, 2^40)
+			pool = append(pool, k, 1<<40-1-k, 1<<39+k)
+		} else {
+			// node ids: anything whose FeatureID (id<<16 | type) does not carry into the type
+			// byte of a WAY feature id: ids in [2^40, 2^47) would alias way ids (id domain of
+			// FeatureID, property C10), so they are not used
+			pool = append(pool, -1-k, k, 1<<40-1-k, 1<<63-1-k, -1<<63+k)
+		}
+	}
+	rng.Shuffle(len(pool), func(i, j int) { pool[i], pool[j] = pool[j], pool[i] })
+	seen := map[int64]bool{}
+	var out []int64
+	for _, v := range pool {
+		if !seen[v] && len(out) < n {
+			seen[v] = true
+			out = append(out, v)
+		}
+	}
+	return out
+}
+
+// remapIDs: mode 1 exotic node ids; 2, 3 exotic node ids and way ids from the FeatureID-safe
+// exotic pool {0.., 2^39.., ..2^40-1}; every mode also draws the relation id from {0, small, 2^40-1}.
+func remapIDs(rng *rand.Rand, in *input, mode int) {
+	nm := map[int64]int64{}
+	ids := exoticIDs(rng, len(in.nodes), false)
+	for i := range in.nodes {
+		nm[in.nodes[i].id] = ids[i]
+		in.nodes[i].id = ids[i]
+	}
+	wm := map[int64]int64{}
+	if mode >= 2 {
+		wids := exoticIDs(rng, len(in.ways), true)
+		for i := range in.ways {
+			wm[in.ways[i].id] = wids[i]
+			in.ways[i].id = wids[i]
+		}
+	}
+	for i := range in.ways {
+		for j, id := range in.ways[i].nodes {
+			in.ways[i].nodes[j] = nm[id]
+		}
+	}
+	if mode >= 2 {
+		for i := range in.members {
+			in.members[i].ref = wm[in.members[i].ref]
+		}
+	}
+	in.relID = []int64{0, 7, 1<<40 - 1, 123456789}[rng.Intn(4)]
+	in.relZero = in.relID == 0
+}
+
 // expected orientation of each member: direction its way runs around its ground-truth ring
 func expectedOrients(in *input) []int64 {
 	rings, _ := sceneRings(in.spec)
@@ -678,6 +738,13 @@ func (in *input) nodeAt(id int64) (pt, bool) {
 }
 
 // build the osm objects for one run. src 0: node objects only; 1: annotated way nodes only; 2: both.
+func (in *input) rid() int64 {
+	if in.relID == 0 && !in.relZero {
+		return 1
+	}
+	return in.relID
+}
+
 func (in *input) build(src int, orients []int64) *osm.OSM {
 	o := &osm.OSM{}
 	if src != 1 {
@@ -700,7 +767,7 @@ func (in *input) build(src int, orients []int64) *osm.OSM {
 		}
 		o.Ways = append(o.Ways, way)
 	}
-	r := &osm.Relation{ID: 1, Version: 1, Visible: true,
+	r := &osm.Relation{ID: osm.RelationID(in.rid()), Version: 1, Visible: true,
 		Tags: osm.Tags{{Key: "type", Value: in.relType}, {Key: "natural", Value: "water"}}}
 	for i, m := range in.members {
 		t := osm.TypeWay
@@ -804,7 +871,7 @@ func doRun(in *input, src int, incl bool, orients []int64) runObs {
 	}
 	ob.nfeat = len(fc.Features)
 	for _, f := range fc.Features {
-		if f.ID != "relation/1" {
+		if f.ID != fmt.Sprintf("relation/%d", in.rid()) {
 			continue
 		}
 		switch g := f.Geometry.(type) {
@@ -970,6 +1037,7 @@ func sceneCase(in *input, runs []runObs, annots []annotObs) *wire.Case {
 		ms = append(ms, []interface{}{m.isWay, m.ref, roleName(m.role)})
 	}
 	desc["nodes(id,x=lon,y=lat)"], desc["ways"], desc["members"], desc["relation_type"] = ns, ws, ms, in.relType
+	desc["relation_id"] = in.rid()
 	c.Len(len(runs))
 	var rs []interface{}
 	for _, r := range runs {
@@ -1028,7 +1096,10 @@ func specCase(rng *rand.Rand, in *input) *wire.Case {
 		doRun(in, 1, false, exp),
 		doRun(in, rng.Intn(3), true, [][]int64{zeros(n), exp, partial(rng, exp)}[rng.Intn(3)]),
 	}
-	annots := []annotObs{doAnnot(in, zeros(n)), doAnnot(in, [][]int64{exp, partial(rng, exp)}[rng.Intn(2)])}
+	var annots []annotObs
+	if !in.noAnnot {
+		annots = []annotObs{doAnnot(in, zeros(n)), doAnnot(in, [][]int64{exp, partial(rng, exp)}[rng.Intn(2)])}
+	}
 	return sceneCase(in, runs, annots)
 }
 
@@ -1282,6 +1353,403 @@ func addmpCase(rng *rand.Rand, corrupt bool) *wire.Case {
 	return c
 }
 
+// ---------------------------------------------------------------- several relations in one Convert call
+
+// multiScene: a star ring around c split by the two spokes c-v_i, c-v_j into two neighbouring
+// polygons A and B that share the way(s) v_i - c - v_j, and a third relation whose outer ring is a
+// square around everything and whose inner ring is A (the ways of A are outer members in relation
+// 1 and inner members in relation 3).  Every relation is a valid scene of its own.
+type multi struct {
+	e     emb
+	nodes []rawNode
+	ways  []rawWay
+	rels  []*input // nodes / ways of each are the shared tables
+}
+
+func genMulti(rng *rand.Rand, ps preset, e emb, idMode int) *multi {
+	for {
+		cell := ps.cell
+		c := pt{cell*3 + ps.off, cell*3 + ps.off}
+		k := 5 + rng.Intn(5)
+		r := starRing(rng, c, ps.rmin, ps.rmax, k)
+		if r == nil {
+			continue
+		}
+		i := rng.Intn(k)
+		j := (i + 1 + rng.Intn(k-1)) % k
+		arc := func(from, to int) []pt {
+			var o []pt
+			for x := from; ; x = (x + 1) % k {
+				o = append(o, r[x])
+				if x == to {
+					break
+				}
+			}
+			return o
+		}
+		A := append(arc(i, j), c) // v_i .. v_j, c
+		B := append(arc(j, i), c) // v_j .. v_i, c
+		h := ps.rmax + 2
+		S := []pt{{c.x - h, c.y - h}, {c.x + h, c.y - h}, {c.x + h, c.y + h}, {c.x - h, c.y + h}}
+		if !simpleRing(A) || !simpleRing(B) || area2(A) <= 0 || area2(B) <= 0 {
+			continue
+		}
+		scs := [][]gtPoly{{{outer: A}}, {{outer: B}}, {{outer: S, holes: [][]pt{A}, c: &c}}}
+		okAll := true
+		for _, sc := range scs {
+			func() {
+				defer func() {
+					if recover() != nil {
+						okAll = false
+					}
+				}()
+				assertScene(sc)
+			}()
+			if !robust(sc, e) {
+				okAll = false
+			}
+		}
+		if !okAll {
+			continue
+		}
+		m := &multi{e: e}
+		nid := map[pt]int64{}
+		all := append(append(append([]pt{}, r...), c), S...)
+		ids := rng.Perm(len(all) + 4)
+		for x, p := range all {
+			nid[p] = int64(ids[x]) + 1
+			m.nodes = append(m.nodes, rawNode{nid[p], p})
+		}
+		wid := int64(100)
+		type wdesc struct {
+			id   int64
+			line []pt
+		}
+		mkWay := func(line []pt) wdesc {
+			if rng.Intn(2) == 0 {
+				line = reversed(line)
+			}
+			wid += int64(1 + rng.Intn(3))
+			w := rawWay{id: wid}
+			for _, p := range line {
+				w.nodes = append(w.nodes, nid[p])
+			}
+			m.ways = append(m.ways, w)
+			return wdesc{wid, line}
+		}
+		// cut an open path into consecutive ways
+		cutPath := func(path []pt) []wdesc {
+			var out []wdesc
+			start := 0
+			for x := 1; x < len(path); x++ {
+				if x == len(path)-1 || rng.Intn(3) == 0 {
+					out = append(out, mkWay(append([]pt{}, path[start:x+1]...)))
+					start = x
+				}
+			}
+			return out
+		}
+		waysArcA := cutPath(arc(i, j))
+		waysArcB := cutPath(arc(j, i))
+		var waysW []wdesc // the shared spokes v_j - c - v_i, as one way or two
+		if rng.Intn(2) == 0 {
+			waysW = []wdesc{mkWay([]pt{r[j], c, r[i]})}
+		} else {
+			waysW = []wdesc{mkWay([]pt{r[j], c}), mkWay([]pt{c, r[i]})}
+		}
+		waysS := cutPath(append(append([]pt{}, S...), S[0]))
+		// a relation from a scene and the ways that make up its rings
+		mkRel := func(id int64, sc []gtPoly, ws [][]wdesc) *input {
+			in := &input{e: e, spec: sc, relType: []string{"multipolygon", "boundary"}[rng.Intn(2)], relID: id,
+				nodes: m.nodes, ways: m.ways}
+			rings, roles := sceneRings(sc)
+			type mem struct {
+				m  rawMember
+				pc piece
+			}
+			var mems []mem
+			for ri, ring := range rings {
+				pos := map[pt]int{}
+				for x, p := range ring {
+					pos[p] = x
+				}
+				n := len(ring)
+				for _, wd := range ws[ri] {
+					l := wd.line
+					// forward piece starting at l[0], or reversed piece starting at l[len-1]
+					fwd := ring[(pos[l[0]]+1)%n] == l[1]
+					if len(l)-1 == n { // a closed way: direction from the second vertex
+						fwd = ring[(pos[l[0]]+1)%n] == l[1]
+					}
+					pc := piece{ri, pos[l[0]], len(l) - 1, false}
+					if !fwd {
+						pc = piece{ri, pos[l[len(l)-1]], len(l) - 1, true}
+					}
+					mems = append(mems, mem{rawMember{true, wd.id, roles[ri]}, pc})
+				}
+			}
+			rng.Shuffle(len(mems), func(a, b int) { mems[a], mems[b] = mems[b], mems[a] })
+			for _, x := range mems {
+				in.members = append(in.members, x.m)
+				in.pieces = append(in.pieces, x.pc)
+			}
+			return in
+		}
+		ringA := append(append([]wdesc{}, waysArcA...), waysW...)
+		ringB := append(append([]wdesc{}, waysArcB...), waysW...)
+		m.rels = []*input{
+			mkRel(11, scs[0], [][]wdesc{ringA}),
+			mkRel(12, scs[1], [][]wdesc{ringB}),
+			mkRel(13, scs[2], [][]wdesc{waysS, ringA}),
+		}
+		rng.Shuffle(len(m.rels), func(a, b int) { m.rels[a], m.rels[b] = m.rels[b], m.rels[a] })
+		rng.Shuffle(len(m.nodes), func(a, b int) { m.nodes[a], m.nodes[b] = m.nodes[b], m.nodes[a] })
+		rng.Shuffle(len(m.ways), func(a, b int) { m.ways[a], m.ways[b] = m.ways[b], m.ways[a] })
+		for _, in := range m.rels {
+			in.nodes, in.ways = m.nodes, m.ways
+		}
+		if idMode > 0 { // exotic node ids (ways stay FeatureID-safe)
+			nm := map[int64]int64{}
+			ex := exoticIDs(rng, len(m.nodes), false)
+			for x := range m.nodes {
+				nm[m.nodes[x].id] = ex[x]
+				m.nodes[x].id = ex[x]
+			}
+			for x := range m.ways {
+				for y, id := range m.ways[x].nodes {
+					m.ways[x].nodes[y] = nm[id]
+				}
+			}
+		}
+		return m
+	}
+}
+
+type multiRun struct {
+	src   int
+	incl  bool
+	nfeat int
+	obs   []runObs // one per relation
+}
+
+func doMultiRun(m *multi, src int, incl bool, orients [][]int64) multiRun {
+	o := m.rels[0].build(src, orients[0])
+	for k := 1; k < len(m.rels); k++ {
+		o.Relations = append(o.Relations, m.rels[k].build(src, orients[k]).Relations[0])
+	}
+	mr := multiRun{src: src, incl: incl}
+	fc, err := osmgeojson.Convert(o, osmgeojson.IncludeInvalidPolygons(incl))
+	if err != nil {
+		mr.nfeat = -1
+	} else {
+		mr.nfeat = len(fc.Features)
+	}
+	for k, in := range m.rels {
+		ob := runObs{src: src, incl: incl, orients: orients[k]}
+		if err == nil {
+			for _, f := range fc.Features {
+				if f.ID != fmt.Sprintf("relation/%d", in.rid()) {
+					continue
+				}
+				switch g := f.Geometry.(type) {
+				case orb.Polygon:
+					ob.kind, ob.polys = 1, orb.MultiPolygon{g}
+				case orb.MultiPolygon:
+					ob.kind, ob.polys = 2, g
+				default:
+					ob.kind = 3
+				}
+				if t, ok := f.Properties["tainted"].(bool); ok && t {
+					ob.tainted = true
+				}
+			}
+		}
+		mr.obs = append(mr.obs, ob)
+	}
+	return mr
+}
+
+func multiCase(rng *rand.Rand, m *multi, corrupt bool) *wire.Case {
+	c := &wire.Case{Class: "multi_relation"}
+	c.Int(5)
+	m.rels[0].setInverse()
+	defer func() { inverse = nil }()
+	desc := map[string]interface{}{"embedding(lon=x*scale+lon0,lat=y*scale+lat0)": map[string]float64{"scale": m.e.s, "lon0": m.e.ox, "lat0": m.e.oy}}
+	c.Len(len(m.nodes))
+	var ns, ws, rs []interface{}
+	for _, n := range m.nodes {
+		c.Int(n.id)
+		encP(c, n.p)
+		ns = append(ns, []int64{n.id, n.p.x, n.p.y})
+	}
+	c.Len(len(m.ways))
+	for _, w := range m.ways {
+		c.Int(w.id).Ints(w.nodes)
+		ws = append(ws, map[string]interface{}{"id": w.id, "nodes": w.nodes})
+	}
+	c.Len(len(m.rels))
+	var exps [][]int64
+	for _, in := range m.rels {
+		c.Len(len(in.spec))
+		var gs []interface{}
+		for _, p := range in.spec {
+			encLine(c, p.outer)
+			c.Len(len(p.holes))
+			var hs []interface{}
+			for _, h := range p.holes {
+				encLine(c, h)
+				hs = append(hs, ptsJSON(h))
+			}
+			gs = append(gs, map[string]interface{}{"outer": ptsJSON(p.outer), "holes": hs})
+		}
+		c.Len(len(in.pieces))
+		for _, pc := range in.pieces {
+			c.Len(pc.ring).Len(pc.start).Len(pc.edges).Bool(pc.rev)
+		}
+		c.Len(len(in.members))
+		var ms []interface{}
+		for _, mm := range in.members {
+			c.Bool(mm.isWay).Int(mm.ref).Int(int64(mm.role))
+			ms = append(ms, []interface{}{mm.ref, roleName(mm.role)})
+		}
+		rs = append(rs, map[string]interface{}{"relation_id": in.rid(), "type": in.relType, "ground_truth": gs, "members": ms})
+		exps = append(exps, expectedOrients(in))
+	}
+	desc["nodes(id,x,y)"], desc["ways"], desc["relations"] = ns, ws, rs
+	pick := func(mode int) [][]int64 {
+		var o [][]int64
+		for k := range m.rels {
+			switch mode {
+			case 0:
+				o = append(o, zeros(len(exps[k])))
+			case 1:
+				o = append(o, exps[k])
+			default:
+				o = append(o, partial(rng, exps[k]))
+			}
+		}
+		return o
+	}
+	runs := []multiRun{
+		doMultiRun(m, 0, false, pick(0)),
+		doMultiRun(m, 1, false, pick(1)),
+		doMultiRun(m, 0, false, pick(1)),
+		doMultiRun(m, 2, false, pick(2)),
+		doMultiRun(m, rng.Intn(3), true, pick(rng.Intn(3))),
+	}
+	if corrupt {
+		runs = runs[:1]
+		runs[0].obs[1].tainted = !runs[0].obs[1].tainted
+	}
+	c.Len(len(runs))
+	var rj []interface{}
+	for _, r := range runs {
+		c.Int(int64(r.src)).Bool(r.incl).Int(int64(r.nfeat)).Len(len(r.obs))
+		var oj []interface{}
+		for k, ob := range r.obs {
+			c.Ints(ob.orients).Int(int64(ob.kind))
+			encMP(c, ob.polys)
+			c.Bool(ob.tainted)
+			oj = append(oj, map[string]interface{}{"relation_id": m.rels[k].rid(), "member_orientations": ob.orients,
+				"kind": []string{"none", "Polygon", "MultiPolygon", "other"}[ob.kind], "polygons": ob.polys, "tainted": ob.tainted})
+			if !corrupt && c.OracleFail == "" {
+				ob.nfeat = 1
+				if msg := oracleRun(m.rels[k], ob); msg != "" {
+					c.OracleFail = fmt.Sprintf("Convert of %d relations, relation %d: %s", len(m.rels), m.rels[k].rid(), msg)
+				}
+			}
+		}
+		if !corrupt && c.OracleFail == "" && r.nfeat != len(m.rels) {
+			c.OracleFail = fmt.Sprintf("%d features instead of %d", r.nfeat, len(m.rels))
+		}
+		rj = append(rj, map[string]interface{}{"coords_from": []string{"nodes", "way_nodes", "both"}[r.src], "include_invalid": r.incl, "features": r.nfeat, "relations": oj})
+	}
+	desc["convert_runs(all relations in one call)"] = rj
+	if nonInteger && c.OracleFail == "" && !corrupt {
+		c.OracleFail = "output contains a coordinate that is not an input coordinate"
+	}
+	nonInteger = false
+	c.Desc = desc
+	return c
+}
+
+// ---------------------------------------------------------------- relation histories (annotate)
+
+// historyCases: one annotate.Relations call over two versions of a relation; between them some
+// member ways get a new version with the node order reversed.  Each relation version must be
+// annotated with the directions of the way versions current at that version: one SCENE case per
+// relation version (annotate observation only), each with its own ways table.
+func historyCases(rng *rand.Rand, in1 *input) []*wire.Case {
+	in2 := &input{e: in1.e, spec: in1.spec, relType: in1.relType, relID: in1.relID, relZero: in1.relZero,
+		nodes: in1.nodes, members: in1.members}
+	in2.pieces = append([]piece{}, in1.pieces...)
+	flipped := map[int64]bool{}
+	for len(flipped) == 0 {
+		for _, w := range in1.ways {
+			if rng.Intn(3) == 0 {
+				flipped[w.id] = true
+			}
+		}
+	}
+	for _, w := range in1.ways {
+		nw := rawWay{w.id, append([]int64{}, w.nodes...)}
+		if flipped[w.id] {
+			for a, b := 0, len(nw.nodes)-1; a < b; a, b = a+1, b-1 {
+				nw.nodes[a], nw.nodes[b] = nw.nodes[b], nw.nodes[a]
+			}
+		}
+		in2.ways = append(in2.ways, nw)
+	}
+	for k, mm := range in2.members {
+		if flipped[mm.ref] {
+			in2.pieces[k].rev = !in2.pieces[k].rev
+		}
+	}
+	t0 := time.Date(2015, 1, 1, 0, 0, 0, 0, time.UTC)
+	day := 24 * time.Hour
+	o1, o2 := in1.build(1, zeros(len(in1.members))), in2.build(1, zeros(len(in2.members)))
+	var ways osm.Ways
+	for _, w := range o1.Ways {
+		w.Timestamp, w.ChangesetID = t0, 10
+		ways = append(ways, w)
+	}
+	for _, w := range o2.Ways {
+		if flipped[int64(w.ID)] {
+			w.Version, w.Timestamp, w.ChangesetID = 2, t0.Add(2*day), 20
+			ways = append(ways, w)
+		}
+	}
+	r1, r2 := o1.Relations[0], o2.Relations[0]
+	r1.Timestamp, r1.ChangesetID = t0.Add(day), 15
+	r2.Version, r2.Timestamp, r2.ChangesetID = 2, t0.Add(3*day), 25
+	err := annotate.Relations(context.Background(), osm.Relations{r1, r2},
+		(&osm.OSM{Ways: ways}).HistoryDatasource(), annotate.Threshold(time.Hour))
+	var out []*wire.Case
+	for k, pr := range []struct {
+		in *input
+		r  *osm.Relation
+	}{{in1, r1}, {in2, r2}} {
+		a := annotObs{in: zeros(len(pr.in.members)), ok: err == nil}
+		for _, mm := range pr.r.Members {
+			a.out = append(a.out, int64(mm.Orientation))
+		}
+		c := sceneCase(pr.in, nil, []annotObs{a})
+		c.Class = "history"
+		c.Desc.(map[string]interface{})["history"] = fmt.Sprintf("relation version %d of 2 in ONE annotate.Relations call; ways with a reversed second version (between the two relation versions): %v; the ways table above is the one current at this relation version", k+1, keys(flipped))
+		out = append(out, c)
+	}
+	return out
+}
+
+func keys(m map[int64]bool) []int64 {
+	var o []int64
+	for k := range m {
+		o = append(o, k)
+	}
+	sort.Slice(o, func(i, j int) bool { return o[i] < o[j] })
+	return o
+}
+
 // ---------------------------------------------------------------- fixed corpus
 
 func corpus() [][]gtPoly {
@@ -1298,7 +1766,7 @@ func main() {
 	a := wire.ParseArgs()
 	rng := wire.Rng(a.Seed)
 	w := wire.NewWriter("C16", a.Seed, a.Tier)
-	w.Rule = "coordinate embedding: scene integer coordinates (x,y) are fed as lon = x*s+lon0, lat = y*s+lat0 for s in {1, 1e-7} and offsets {0, far from the origin}; observations are mapped back through the exact table of fed floats (vertex identities), scenes are used only when the generator's exact margins guarantee that float signs equal integer signs; families: big / tiny (holes of a few steps) / micro (outers of a few steps) / null_island (a vertex at (1,0), (0,1) or (1,1) steps). scenes: 1-4 integer star-shaped outers in disjoint grid cells, 0-2 star-shaped holes each in disjoint sub-cells, strict containment (even-odd rule, no touching, AND kernel point + axis-parallel reachability of every hole vertex as in Geo/Jordan.v) / simplicity / disjointness asserted exactly; every ring cut into 1..6 pieces (all counts cycle), random reversals, shuffled members, ways, nodes and ids; each scene = 6 Convert runs (node map / annotated way nodes / both; no, truthful, partial truthful orientations; IncludeInvalidPolygons) + 2 annotate.Relations runs. malformed: a scene with 1-3 defects (missing way/member/node, node at (0,0), duplicate member, role change, dangling way, degenerate way, touching rings, node member), judged model=implementation only. join: random segment soups over a 12x12 pool plus valid cuts; contains / addmp: random rings. distinct = distinct token streams; trivial = empty soups."
+	w.Rule = "coordinate embedding: scene integer coordinates (x,y) are fed as lon = x*s+lon0, lat = y*s+lat0 for s in {1, 1e-7} and offsets {0, far from the origin}; observations are mapped back through the exact table of fed floats (vertex identities), scenes are used only when the generator's exact margins guarantee that float signs equal integer signs; families: big / tiny (holes of a few steps) / micro (outers of a few steps) / null_island (a vertex at (1,0), (0,1) or (1,1) steps). multi_relation: three relations in ONE Convert call sharing member ways (two neighbouring polygons sharing their spoke ways, which run in opposite directions in the two; a third relation using the ways of the first as inner ring), each with its own ground truth and orientations; history: annotate.Relations over two versions of a relation between which member ways were reversed (new way version), every version judged against the ways current at it; ids: node / way / relation ids also drawn from {negative, 0, around 2^40, near +-2^63} (opaque in the model). scenes: 1-4 integer star-shaped outers in disjoint grid cells, 0-2 star-shaped holes each in disjoint sub-cells, strict containment (even-odd rule, no touching, AND kernel point + axis-parallel reachability of every hole vertex as in Geo/Jordan.v) / simplicity / disjointness asserted exactly; every ring cut into 1..6 pieces (all counts cycle), random reversals, shuffled members, ways, nodes and ids; each scene = 6 Convert runs (node map / annotated way nodes / both; no, truthful, partial truthful orientations; IncludeInvalidPolygons) + 2 annotate.Relations runs. malformed: a scene with 1-3 defects (missing way/member/node, node at (0,0), duplicate member, role change, dangling way, degenerate way, touching rings, node member), judged model=implementation only. join: random segment soups over a 12x12 pool plus valid cuts; contains / addmp: random rings. distinct = distinct token streams; trivial = empty soups."
 	nscene, nmal, njoin, ncont, naddmp := 260, 120, 500, 500, 150
 	if a.Tier == "thorough" {
 		nscene, nmal, njoin, ncont, naddmp = 5000, 2500, 12000, 12000, 3000
@@ -1363,6 +1831,11 @@ func main() {
 			return 1 + (base+ring+rng.Intn(2))%6
 		})
 		in.e = fam.e
+		if i%4 == 1 {
+			mode := 1 + (i/4)%3
+			remapIDs(rng, in, mode)
+			w.Count(fmt.Sprintf("exotic_ids:mode%d", mode))
+		}
 		for _, n := range in.nodes {
 			if n.p.x == 0 || n.p.y == 0 {
 				w.Count("scene_touches_axis")
@@ -1392,6 +1865,29 @@ func main() {
 		w.Add(c)
 		if len(keep) < 400 {
 			keep = append(keep, in)
+		}
+	}
+	// 1b. several relations sharing ways in one Convert call
+	nmulti, nhist := sc(60), sc(60)
+	if a.Tier == "thorough" {
+		nmulti, nhist = sc(1500), sc(1500)
+	}
+	for i := 0; i < nmulti; i++ {
+		fams := []struct {
+			ps preset
+			e  emb
+		}{{presetBig, embIdentity}, {presetTiny, emb{1e-7, 0, 0}}, {presetTiny, emb{1e-7, 120.1234567, 51.7654321}}, {presetBig, emb{1e-7, 0, 0}}}
+		f := fams[i%len(fams)]
+		w.Add(multiCase(rng, genMulti(rng, f.ps, f.e, i%3), false))
+	}
+	// 1c. annotate.Relations over two-version relation histories with reversed member ways
+	for i := 0; i < nhist; i++ {
+		base := keep[rng.Intn(len(keep))]
+		if base.noAnnot {
+			continue
+		}
+		for _, c := range historyCases(rng, base) {
+			w.Add(c)
 		}
 	}
 	// 2. malformed scenes
@@ -1465,6 +1961,9 @@ func main() {
 		w.Add(c)
 		c = addmpCase(rng, true)
 		c.Canary, c.Class = 1, ""
+		w.Add(c)
+		c = multiCase(rng, genMulti(rng, presetTiny, embIdentity, 0), true)
+		c.Canary, c.Class, c.OracleFail = 1, "", ""
 		w.Add(c)
 	}
 	shard := 300
